@@ -70,6 +70,9 @@ IsoCheck.vos IsoCheck.vok IsoCheck.required_vos: IsoCheck.v Graph.vos Sched.vos 
 IsoFacts.vo IsoFacts.glob IsoFacts.v.beautified IsoFacts.required_vo: IsoFacts.v Graph.vo GraphFacts.vo Sched.vo SchedInv.vo Dataflow.vo DataflowFacts.vo Iso.vo
 IsoFacts.vio: IsoFacts.v Graph.vio GraphFacts.vio Sched.vio SchedInv.vio Dataflow.vio DataflowFacts.vio Iso.vio
 IsoFacts.vos IsoFacts.vok IsoFacts.required_vos: IsoFacts.v Graph.vos GraphFacts.vos Sched.vos SchedInv.vos Dataflow.vos DataflowFacts.vos Iso.vos
+IsoCheckFacts.vo IsoCheckFacts.glob IsoCheckFacts.v.beautified IsoCheckFacts.required_vo: IsoCheckFacts.v Graph.vo GraphFacts.vo Sched.vo SchedInv.vo Dataflow.vo DataflowFast.vo DataflowFacts.vo Terms.vo Iso.vo IsoFacts.vo IsoCheck.vo
+IsoCheckFacts.vio: IsoCheckFacts.v Graph.vio GraphFacts.vio Sched.vio SchedInv.vio Dataflow.vio DataflowFast.vio DataflowFacts.vio Terms.vio Iso.vio IsoFacts.vio IsoCheck.vio
+IsoCheckFacts.vos IsoCheckFacts.vok IsoCheckFacts.required_vos: IsoCheckFacts.v Graph.vos GraphFacts.vos Sched.vos SchedInv.vos Dataflow.vos DataflowFast.vos DataflowFacts.vos Terms.vos Iso.vos IsoFacts.vos IsoCheck.vos
 Compose.vo Compose.glob Compose.v.beautified Compose.required_vo: Compose.v Graph.vo
 Compose.vio: Compose.v Graph.vio
 Compose.vos Compose.vok Compose.required_vos: Compose.v Graph.vos
@@ -145,9 +148,9 @@ Properties/C17.vos Properties/C17.vok Properties/C17.required_vos: Properties/C1
 Properties/C18.vo Properties/C18.glob Properties/C18.v.beautified Properties/C18.required_vo: Properties/C18.v Graph.vo Select.vo SelectFacts.vo History.vo HistoryFacts.vo
 Properties/C18.vio: Properties/C18.v Graph.vio Select.vio SelectFacts.vio History.vio HistoryFacts.vio
 Properties/C18.vos Properties/C18.vok Properties/C18.required_vos: Properties/C18.v Graph.vos Select.vos SelectFacts.vos History.vos HistoryFacts.vos
-Properties/C19.vo Properties/C19.glob Properties/C19.v.beautified Properties/C19.required_vo: Properties/C19.v Graph.vo Closure.vo Sched.vo SchedInv.vo Dataflow.vo DataflowFacts.vo Iso.vo IsoFacts.vo Compose.vo ComposeFacts.vo
-Properties/C19.vio: Properties/C19.v Graph.vio Closure.vio Sched.vio SchedInv.vio Dataflow.vio DataflowFacts.vio Iso.vio IsoFacts.vio Compose.vio ComposeFacts.vio
-Properties/C19.vos Properties/C19.vok Properties/C19.required_vos: Properties/C19.v Graph.vos Closure.vos Sched.vos SchedInv.vos Dataflow.vos DataflowFacts.vos Iso.vos IsoFacts.vos Compose.vos ComposeFacts.vos
-Properties/C20.vo Properties/C20.glob Properties/C20.v.beautified Properties/C20.required_vo: Properties/C20.v Graph.vo Sched.vo SchedInv.vo Dataflow.vo DataflowFacts.vo Iso.vo IsoFacts.vo
-Properties/C20.vio: Properties/C20.v Graph.vio Sched.vio SchedInv.vio Dataflow.vio DataflowFacts.vio Iso.vio IsoFacts.vio
-Properties/C20.vos Properties/C20.vok Properties/C20.required_vos: Properties/C20.v Graph.vos Sched.vos SchedInv.vos Dataflow.vos DataflowFacts.vos Iso.vos IsoFacts.vos
+Properties/C19.vo Properties/C19.glob Properties/C19.v.beautified Properties/C19.required_vo: Properties/C19.v Graph.vo Closure.vo Sched.vo SchedInv.vo Dataflow.vo DataflowFacts.vo Terms.vo Iso.vo IsoFacts.vo IsoCheck.vo IsoCheckFacts.vo Compose.vo ComposeFacts.vo
+Properties/C19.vio: Properties/C19.v Graph.vio Closure.vio Sched.vio SchedInv.vio Dataflow.vio DataflowFacts.vio Terms.vio Iso.vio IsoFacts.vio IsoCheck.vio IsoCheckFacts.vio Compose.vio ComposeFacts.vio
+Properties/C19.vos Properties/C19.vok Properties/C19.required_vos: Properties/C19.v Graph.vos Closure.vos Sched.vos SchedInv.vos Dataflow.vos DataflowFacts.vos Terms.vos Iso.vos IsoFacts.vos IsoCheck.vos IsoCheckFacts.vos Compose.vos ComposeFacts.vos
+Properties/C20.vo Properties/C20.glob Properties/C20.v.beautified Properties/C20.required_vo: Properties/C20.v Graph.vo Sched.vo SchedInv.vo Dataflow.vo DataflowFacts.vo Terms.vo Iso.vo IsoFacts.vo IsoCheck.vo IsoCheckFacts.vo
+Properties/C20.vio: Properties/C20.v Graph.vio Sched.vio SchedInv.vio Dataflow.vio DataflowFacts.vio Terms.vio Iso.vio IsoFacts.vio IsoCheck.vio IsoCheckFacts.vio
+Properties/C20.vos Properties/C20.vok Properties/C20.required_vos: Properties/C20.v Graph.vos Sched.vos SchedInv.vos Dataflow.vos DataflowFacts.vos Terms.vos Iso.vos IsoFacts.vos IsoCheck.vos IsoCheckFacts.vos
